@@ -1,0 +1,98 @@
+//go:build verif
+
+// Contracts for package rpc: lock discipline of the connection mutex and of the sender lock
+// (C08, C09, C10).  The package's locks are tracked as typestate only (held / not held); the
+// state they protect is not exposed to other goroutines in this model.
+package rpc
+
+//@ option nolockhavoc immutable:importClient.c immutable:question.c immutable:Conn.transport
+
+//@ spec
+//@ // the sender lock of connection c (the sendCond channel protocol) is held by the current call
+//@ func sending(c *Conn) bool { return ghost("sender", c) == 1 }
+//@ end
+
+// ---------------------------------------------------------------- sender lock primitives (assumed)
+
+//@ func Conn.tryLockSender -> err
+//@   trusted
+//@   requires c != nil && held(&c.mu) && !sending(c)
+//@   modifies g:sender Conn.sendCond
+//@   ensures held(&c.mu)
+//@   ensures sending(c) == (err == nil)
+
+//@ func Conn.lockSender
+//@   trusted
+//@   requires c != nil && held(&c.mu) && !sending(c)
+//@   modifies g:sender Conn.sendCond
+//@   ensures held(&c.mu) && sending(c)
+
+//@ func Conn.unlockSender
+//@   trusted
+//@   requires c != nil && held(&c.mu)
+//@   requires owns: sending(c)
+//@   modifies g:sender Conn.sendCond
+//@   ensures held(&c.mu) && !sending(c)
+
+// shutdown is entered with c.mu held and returns with it released.
+//@ func Conn.shutdown -> err
+//@   trusted
+//@   requires c != nil && held(&c.mu)
+//@   modifies *
+//@   ensures !held(&c.mu)
+
+//@ func Conn.sendMessage -> err
+//@   trusted
+//@   requires c != nil && held(&c.mu)
+//@   modifies *
+//@   ensures held(&c.mu)
+
+// ---------------------------------------------------------------- callers (PARTIAL: lock discipline only)
+
+// Every return of Close leaves the connection mutex released.
+//@ func Conn.Close -> err
+//@   props C10
+//@   locktypestate
+//@   partial lock pre
+//@   requires c != nil && nolocks()
+//@   ensures nolocks()
+
+// Every return of Send leaves c.mu and the sender lock released, whatever fails on the way.
+//@ func importClient.Send -> ans, rel
+//@   props C08 C09
+//@   locktypestate
+//@   partial lock pre post
+//@   requires ic != nil && ic.c != nil && nolocks() && !sending(ic.c)
+//@   ensures mu: nolocks()
+//@   ensures sender: !sending(ic.c)
+
+//@ func question.PipelineSend -> ans, rel
+//@   props C08 C09
+//@   locktypestate
+//@   partial lock pre post
+//@   requires q != nil && q.c != nil && nolocks() && !sending(q.c)
+//@   ensures mu: nolocks()
+//@   ensures sender: !sending(q.c)
+
+// Shutdown of an import: lock discipline, and the import table entry it reads must exist.
+//@ func importClient.Shutdown
+//@   props C07 C10
+//@   locktypestate
+//@   partial lock
+//@   requires ic != nil && ic.c != nil && nolocks()
+//@   ensures nolocks()
+
+// ---------------------------------------------------------------- error annotation
+
+//@ func annotater.errorf -> r
+//@   trusted
+//@   -- errors.Annotate panics on a nil error
+//@   requires nonnil: a.err != nil
+//@   modifies nothing
+//@   ensures r != nil
+
+// handleCall (PARTIAL): every error it annotates is an error (errors.Annotate panics on nil).
+//@ func Conn.handleCall -> err
+//@   props C08
+//@   partial pre:annotater.errorf
+//@   requires c != nil
